@@ -78,11 +78,13 @@ EV_LO, EV_HI = shard("lo", 0), shard("hi", 17)
     bounds="every one of the 17 notification events (enumerated; 3 shards); 0..%d handlers bound, each with or without extra args, each raising or not "
            "(symbolic mask); assoc.abort bound to the blocking or the non-blocking variant beforehand" % NH,
     stubs=["real Association object (never started); handlers are harness closures (or callable objects without __name__, "
-           "symbolic choice) that record their invocation and raise `Boom` (an Exception subclass) according to the mask"],
+           "symbolic choice) that record their invocation and raise `Boom` (an Exception subclass, with or without "
+           "arguments) according to the mask"],
     findings=["C26-handler-without-name"],
     outside="handlers raising BaseException subclasses that are not Exceptions (KeyboardInterrupt, SystemExit)",
 )
-def trigger_notification(ev: int, raises: List[bool], with_args: List[bool], nonblocking_before: bool, as_object: bool) -> bool:
+def trigger_notification(ev: int, raises: List[bool], with_args: List[bool], nonblocking_before: bool, as_object: bool,
+                         bare_exc: bool) -> bool:
     """
     pre: EV_LO <= ev < EV_HI
     pre: len(raises) <= NH and len(with_args) == len(raises)
@@ -98,6 +100,8 @@ def trigger_notification(ev: int, raises: List[bool], with_args: List[bool], non
         def h(ev, *extra):
             calls.append((i, ev.event is event, ev.assoc is assoc, extra))
             if raises[i]:
+                if bare_exc:
+                    raise Boom()         # an exception instance without arguments
                 raise Boom(i)
         if as_object:
             return CallableObject(h)     # a handler that is a callable without __name__ (like functools.partial)
